@@ -20,6 +20,7 @@ def run(ctx):
         ctx.guard("C18", "stream_common", lambda: n.__setitem__(0, n[0] + (errflow.stream_common(ctx, prog) or 0)))
         ctx.guard("C18", "stream_file", lambda: n.__setitem__(0, n[0] + (errflow.stream_and_file(ctx, prog) or 0)))
         ctx.floor("SA-ERRFLOW", n[0], 6, "fallible call sites in the reader front ends")
+        ctx.guard("C18", "wrap", lambda: errflow.io_error_wrap(ctx, prog))
         ctx.guard("C18", "finalize-mismatch", lambda: gen.guards_finalize(ctx, prog, need=("mismatch",)))
         ctx.guard("C18", "finalize-delegate", lambda: gen.finalizers_delegate(ctx, prog))
     return ctx.finish(EXPL, ["std::io::Read::read contract: Ok(n) implies n <= buf.len() and n bytes were written", "File::metadata().len() is the size the property calls 'reported by its metadata'"])
